@@ -56,11 +56,25 @@ fn violates(w: usize, slen: usize, a: &[usize], b: &[usize]) -> Option<usize> {
 }
 
 fn check_pair(c: &Cfg, bc: &bitar::chunker::Config, p1: &[u8], p2: &[u8], s: &[u8], cuts1: &[usize], agg: &mut Agg) {
+    check_pair_reads(c, bc, p1, p2, s, cuts1, 0, agg)
+}
+
+/// `read_size` > 0: the second stream is delivered that many bytes per read (with Pending
+/// results in between); the statement quantifies over streams, however they are read.
+fn check_pair_reads(c: &Cfg, bc: &bitar::chunker::Config, p1: &[u8], p2: &[u8], s: &[u8], cuts1: &[usize], read_size: usize, agg: &mut Agg) {
     let mut d2 = p2.to_vec();
     d2.extend_from_slice(s);
-    let cuts2 = match real_cuts(bc, &d2) {
-        Ok(x) => x,
-        Err(_) => return,
+    let cuts2 = if read_size == 0 {
+        match real_cuts(bc, &d2) {
+            Ok(x) => x,
+            Err(_) => return,
+        }
+    } else {
+        agg.add("pairs_with_fragmented_reads", 1);
+        match crate::c09::cuts_with_reads(c, &d2, read_size) {
+            Ok(x) => x,
+            Err(_) => return,
+        }
     };
     let a = s_bounds(cuts1, p1.len());
     let b = s_bounds(&cuts2, p2.len());
@@ -130,6 +144,10 @@ pub fn run(rep: &mut Report) {
                 }
                 if let Some(c1) = cache[i].clone() {
                     check_pair(c, &bc, &pre_ref[i], &pre_ref[j], &s, &c1, &mut agg);
+                    // a deterministic slice of the triples with the second stream read 1 or 3 bytes at a time
+                    if (idx as usize + j) % 16 == 0 {
+                        check_pair_reads(c, &bc, &pre_ref[i], &pre_ref[j], &s, &c1, 1 + 2 * ((idx as usize / 16) % 2), &mut agg);
+                    }
                 }
             }
             if k == 5 && idx % 1571 == 3 {
@@ -143,7 +161,7 @@ pub fn run(rep: &mut Report) {
     rep.set("evaluations", json!(pairs_n));
     rep.set("distinct_nontrivial", json!(rep.agg.get("pairs_common_boundary_and_differing_earlier")));
     rep.set("exhaustive", json!(true));
-    rep.set("rule", json!("all (P1,P2,S): P over {00,07}^<=3, S all strings of suffix_len over each suffix alphabet, all grid configurations; a case is non-trivial when both chunkings share a boundary at an S-position >= window and their boundary sets before it differ (the premise of the statement holds and resynchronisation is actually exercised)"));
+    rep.set("rule", json!("all (P1,P2,S): P over {00,07}^<=3, S all strings of suffix_len over each suffix alphabet, all grid configurations, single-read delivery plus a 1-in-16 slice with the second stream delivered 1 or 3 bytes per read with Pending results in between; a case is non-trivial when both chunkings share a boundary at an S-position >= window and their boundary sets before it differ (the premise of the statement holds and resynchronisation is actually exercised)"));
     rep.assume("prefixes up to 3 bytes and suffixes of one fixed small length; windows 1..4");
 }
 
